@@ -31,7 +31,7 @@ ASSUMPTIONS = [
     "'unchanged' for null forcing: orientations and fractions within 1e-12 of the previous snapshot",
     "F reference as in C06 (expm / DOP853), bound 5e-3 + 1e-3 (N + 2 strain)",
 ]
-BOUND = {"quick": "history depth 2, 12 letters + zero-gradient letters, <=1 root deviation", "thorough": "depth 3, <=2 root deviations"}
+BOUND = {"quick": "history depth 2, 12 letters + zero-gradient letters, <=1 root deviation", "thorough": "depth 3, <=1 root deviation"}
 
 NULL_LETTERS = [("zero", 0.1), ("zero", 0.5)]
 VGS = ["ss_xz", "gen0", "rigid_xz"]
@@ -54,7 +54,7 @@ def gen_cases(tier, seed):
             keys.append(dict(part="deriv", regime=rg, fab=fab))
     for ph, fb in itertools.product((0, 1, 2, -1), (0, 1, 2, 3, 4, 5, 6, -1)):
         keys.append(dict(part="pair", phase=ph, fabric=fb))
-    dev = 1 if tier == "quick" else 2
+    dev = 1  # (the thorough tier deepens the histories, depth 3; roots stay within 1 deviation)
     depth = 2 if tier == "quick" else 3
     # (b) null cases
     for k in H.root_keys(tier, ["minvisc", "maxvisc"], dev=dev):
